@@ -138,6 +138,14 @@ SKIP_OPS = {"framenum_subset64",   # C19: known non-termination on valid input
 ADD_OPS_PREFIX = ("add_", "madd_")
 
 
+# tuples that are always part of the sweep (regions of the recorded findings and their neighbours)
+EXTRA = [("open_limit", (1,)), ("open_limit", (2,)), ("open_limit", (3,)), ("open_limit", (4,)),
+         ("getdata64", ("raw.i", 0, 0, 0, 5, 1)), ("getdata64", ("phase.i", 0, 0, 1, 0, 0x88)), ("get_constant", ("const.i", 0x88)),
+         ("getdata64", ("raw", 0, I63 - 2, 0, 5, 1)), ("putdata64", ("raw", 0, I63 - 2, 0, 5, 1)), ("seek64", ("raw", 0, -5, 0)),
+         ("seek64", ("phase", 0, 1, 0)), ("native_type", ("lcbad",)), ("getdata64", ("lcbad", 0, 0, 0, 1, 1)),
+         ("alter_bit", ("bit", "!", 63, 64)), ("alter_bit", ("bit", "!", 0, 65)), ("alter_sbit", ("sbit", "!", 70, 70))]
+
+
 def arg_pool(op, sig, k):
     """values for argument k of op"""
     c = sig[k]
@@ -180,6 +188,8 @@ def base_arg(op, sig, k):
     if c != "s":
         if op in ("add_lincom", "alter_lincom", "madd_lincom") and c == "i":
             return 1
+        if op in ("alter_frameoffset64", "alter_entry", "alter_raw") and c == "i" and k == len(sig) - 1:
+            return 0
         return BASE[c]
     p = arg_pool(op, sig, k)
     return p[0]
@@ -206,6 +216,7 @@ def gen_sweep(ops, rng, per_op_random):
                         tuples.append(tuple(t))
         for _ in range(per_op_random):
             tuples.append(tuple(rng.choice(arg_pool(op, sig, k)) for k in range(len(sig))))
+        tuples = [t for o_, t in EXTRA if o_ == op] + tuples
         seen = set()
         for t in tuples:
             if t in seen:
@@ -220,6 +231,16 @@ GET_FAMILY = {"getdata64", "get_carray_slice", "get_carray", "get_constant", "mc
 PUT_FAMILY = {"putdata64", "put_carray_slice", "put_carray", "put_constant"}
 SLICE_FN = {"get_carray_slice": "gd_get_carray_slice", "put_carray_slice": "gd_put_carray_slice",
             "get_sarray_slice": "gd_get_sarray_slice", "put_sarray_slice": "gd_put_sarray_slice"}
+
+
+BADTYPE_OPS = {"add_const", "add_carray", "madd_const", "madd_carray", "constants", "mconstants", "carrays", "mcarrays",
+               "put_constant", "put_carray", "put_carray_slice", "get_constant", "get_carray", "get_carray_slice"}
+
+
+def internal_key(op):
+    if op in SLICE_FN and False:
+        return "C10/slice-wrap/" + SLICE_FN[op]
+    return "C10/internal-error/bad-data-type" if op in BADTYPE_OPS else "C10/internal-error/%s" % op
 
 
 def leak_key(op, args, err):
@@ -241,13 +262,18 @@ def crash_key(op, text):
     if "HANG" in text:
         return "C10/hang/%s" % op
     for fn, key in (("gd_get_carray_slice", "C10/slice-wrap/gd_get_carray_slice"), ("_GD_PutCarraySlice", "C10/slice-wrap/gd_put_carray_slice"),
+                    ("gd_put_carray_slice", "C10/slice-wrap/gd_put_carray_slice"),
                     ("gd_get_sarray_slice", "C10/slice-wrap/gd_get_sarray_slice"), ("_GD_PutSarraySlice", "C10/slice-wrap/gd_put_sarray_slice"),
-                    ("_GD_FindOpenFields", "C10/open_limit/opened-overrun")):
+                    ("_GD_FindOpenFields", "C10/open_limit/opened-overrun"), ("_GD_CheckParent", "C10/add/empty-name")):
         if fn in text:
             return key
     m = re.search(r"#\d+ 0x[0-9a-f]+ in (_?GD_\w+|gd_\w+)", text)
     kind = re.search(r"AddressSanitizer: ([\w-]+)", text)
-    return "C10/crash/%s/%s/%s" % (op, kind.group(1) if kind else "abort", m.group(1) if m else "unknown")
+    if not kind:
+        u = re.search(r"(\w+\.c):\d+:\d+: runtime error: (.*)", text)
+        if u and "api.c" not in u.group(1):
+            return "C10/ub/%s/%s" % ("index-out-of-bounds" if "out of bounds" in u.group(2) else re.sub(r"[^a-z]+", "-", u.group(2).lower())[:30], u.group(1))
+    return "C10/crash/%s/%s" % (kind.group(1) if kind else "abort-in-" + op, m.group(1) if m else "unknown")
 
 
 def ub_key(op, line):
@@ -449,6 +475,9 @@ def main():
                 nontrivial.add((op, i))
     ph("builds done; running A (%d cases)" % len(A))
     t_a = _t.time()
+    violA = {}
+    def vA(key, desc, replay):
+        violA.setdefault(key, []).append((desc, replay))
     resA = run_cases(exe, A)
     chk.notes.append("phase A: %d cases in %.1fs" % (len(A), _t.time() - t_a))
     chk.cov["evaluations"] += len(A)
@@ -463,14 +492,14 @@ def main():
         ubl = [l for l in r["out"] if "runtime error:" in l]
         if r["crash"]:
             found_any = True
-            chk.violation(crash_key(c["op"], r["crash"]), "%s: the call does not return: %s" % (what, r["crash"][:600]),
+            vA(crash_key(c["op"], r["crash"]), "%s: the call does not return: %s" % (what, r["crash"][:600]),
                           {"kind": "impl-vs-spec", "op": c["op"], "args": c["args"], "report": r["crash"][:3000], "model": p})
             if p.get("tag") == "slice" and not p["accept"]:
                 model_bad.append((what, "model rejects, implementation crashed"))
             continue
         for l in ubl:
             found_any = True
-            chk.violation(ub_key(c["op"], l), "%s: undefined behaviour reported by UBSan: %s" % (what, l.strip()),
+            vA(ub_key(c["op"], l), "%s: undefined behaviour reported by UBSan: %s" % (what, l.strip()),
                           {"kind": "impl-vs-spec", "op": c["op"], "args": c["args"], "report": l.strip(), "model_ub_flag": p.get("ub")})
         got = parse_op(r["out"])
         if got is None:
@@ -481,10 +510,10 @@ def main():
         if err == E_INTERNAL:
             found_any = True
             key = "C10/slice-wrap/" + SLICE_FN[c["op"]] if c["op"] in SLICE_FN else "C10/internal-error/%s" % c["op"]
-            chk.violation(key, "%s returns GD_E_INTERNAL_ERROR" % what, {"kind": "impl-vs-spec", "op": c["op"], "args": c["args"], "impl": got})
+            vA(key, "%s returns GD_E_INTERNAL_ERROR" % what, {"kind": "impl-vs-spec", "op": c["op"], "args": c["args"], "impl": got})
         if lvl != 0:
             found_any = True
-            chk.violation(leak_key(c["op"], c["args"], err), "%s leaves D->recurse_level = %d (error %d)" % (what, lvl, err),
+            vA(leak_key(c["op"], c["args"], err), "%s leaves D->recurse_level = %d (error %d)" % (what, lvl, err),
                           {"kind": "impl-vs-spec", "op": c["op"], "args": c["args"], "impl": got, "model": p})
         if p.get("pred") is not None:
             if p.get("ub") and ubl:
@@ -503,16 +532,20 @@ def main():
                     model_bad.append((what, "slice guard: implementation err=%d, model accept=%s" % (err, p["accept"])))
                 if err == 0 and not p["truth"]:
                     found_any = True
-                    chk.violation("C10/slice-wrap/" + SLICE_FN[c["op"]], "%s succeeds although start+n exceeds the array length" % what,
+                    vA("C10/slice-wrap/" + SLICE_FN[c["op"]], "%s succeeds although start+n exceeds the array length" % what,
                                   {"kind": "impl-vs-spec", "op": c["op"], "args": c["args"], "impl": got})
             elif p["tag"] == "addbit":
                 if (err == 0) != p["accept"]:
                     model_bad.append((what, "BIT guard: implementation err=%d, model accept=%s" % (err, p["accept"])))
                 if err == 0 and not p["truth"]:
                     found_any = True
-                    chk.violation("C10/add_bit/bitnum+numbits-int-overflow", "%s is accepted although bitnum+numbits exceeds 64" % what,
+                    vA("C10/add_bit/bitnum+numbits-int-overflow", "%s is accepted although bitnum+numbits exceeds 64" % what,
                                   {"kind": "impl-vs-spec", "op": c["op"], "args": c["args"], "impl": got})
 
+    for key, l in sorted(violA.items()):
+        desc, rp = l[0]
+        rp = dict(rp); rp["count"] = len(l); rp["others"] = [d for d, _ in l[1:6]]
+        chk.violation(key, desc + " (%d such cases)" % len(l), rp)
     # ---------------------------------------------------------------- C. call-model sequences
     ents = [("raw", 1, 0, [2, 1, 100], []), ("r16", 1, 0, [1, 2, 50], []), ("lincom", 2, 0, [], ["raw", "r16"]), ("bit", 4, 0, [], ["raw"]),
             ("phase", 6, 0, [], ["raw"]), ("const", 16, 0, [3], []), ("carray", 18, 0, [1, 2, 3, 4], []), ("indir", 14, 0, [], ["r16", "carray"]),
@@ -577,10 +610,17 @@ def main():
 
     # ---------------------------------------------------------------- B. boundary sweep over the API
     sweep = gen_sweep(ops, rng, 6 if not chk.thorough else 60)
-    if not chk.thorough and len(sweep) > 9000:
-        keep = [c for c in sweep if len(c["args"]) <= 3]
-        rest = [c for c in sweep if len(c["args"]) > 3]
-        sweep = keep + rng.sample(rest, max(0, 9000 - len(keep)))
+    if not chk.thorough and len(sweep) > 3000:
+        # quick tier: every op keeps its base tuple and a seeded sample of the rest
+        byop = {}
+        for c in sweep:
+            byop.setdefault(c["op"], []).append(c)
+        sweep = []
+        tot = sum(len(x) for x in byop.values())
+        for op_, l in byop.items():
+            ne = len([1 for o_, _ in EXTRA if o_ == op_])
+            quota = max(8, (3000 * len(l)) // tot)
+            sweep += l[:ne + 1] + rng.sample(l[ne + 1:], min(len(l) - ne - 1, quota))
     for k, c in enumerate(sweep):
         c["id"] = "B%d" % k
     ph("running B (%d tuples)" % len(sweep))
@@ -608,14 +648,14 @@ def main():
             nfail_calls += rp["nf"]
             nontrivial.add((c["op"], rp["err"], rp["errl"]))
         if rp["internal"]:
-            key = "C10/slice-wrap/" + SLICE_FN[c["op"]] if c["op"] in SLICE_FN else "C10/internal-error/%s" % c["op"]
+            key = internal_key(c["op"])
             viol.setdefault(key, []).append((what, c, "GD_E_INTERNAL_ERROR returned (%d of %d calls)" % (rp["internal"], REPS)))
         if rp["lmax"] != 0 or rp["lend"] != 0:
             viol.setdefault(leak_key(c["op"], c["args"], rp["err"]), []).append(
                 (what, c, "D->recurse_level is %d after %d calls (first error %d, last error %d); interleaved valid reads failing: %d" % (
                     rp["lend"], REPS, rp["err"], rp["errl"], rp["probe"])))
         elif rp["dirty"]:
-            viol.setdefault("C10/dirty-fail/%s/E%d" % (c["op"], rp["err"]), []).append(
+            viol.setdefault(internal_key(c["op"]) if rp["internal"] else "C10/dirty-fail/%s/E%d" % (c["op"], rp["err"]), []).append(
                 (what, c, "%d failing calls (error %d) changed the observable snapshot" % (rp["dirty"], rp["err"])))
         elif rp["nf"] == REPS and rp["probe"]:
             viol.setdefault("C10/future/%s/E%d" % (c["op"], rp["err"]), []).append(
